@@ -3,10 +3,10 @@
    Assumptions.  Models: Cluster/Upgma.v (_upgma), Cluster/Neighbor.v
    (_neighbor), Cluster/Nwk.v (tree matrix -> Newick nesting); the instance run
    against the implementation is the same code (exact rationals). *)
-From Coq Require Import QArith List Bool Arith Permutation.
+From Coq Require Import QArith Qabs List Bool Arith Permutation.
 From LV Require Import Cluster.Nwk Cluster.NwkProofs Cluster.Upgma Cluster.UpgmaProofs
   Cluster.UpgmaRecover Cluster.UpgmaClades Cluster.UpgmaPaths Cluster.Neighbor Cluster.NeighborProofs Cluster.NeighborRecover
-  Cluster.TreeBuildExec Cluster.TreeBuildProofs Cluster.NjTree Cluster.NjCherry Cluster.NjRun Cluster.NjSplits Cluster.NjTopo.
+  Cluster.TreeBuildExec Cluster.TreeBuildProofs Cluster.NjTree Cluster.NjCherry Cluster.NjRun Cluster.NjSplits Cluster.NjTopo Cluster.Fmt2.
 Import ListNotations.
 Local Open Scope nat_scope.
 
@@ -348,3 +348,48 @@ Theorem C09_newick_pathsums_checker :
       ((v - dm m y x <= tol)%Q /\ (dm m y x - v <= tol)%Q).
 Proof. exact nt_pathsumsb_spec. Qed.
 Print Assumptions C09_newick_pathsums_checker.
+
+(* ------------------------------------------------------------------ *)
+(* The '{:.2f}' rendering of branch lengths, inside the model (Cluster/Fmt2.v): Python
+   prints the exact value of the double correctly rounded to two decimals, ties to
+   even; fmt2 is that decimal.  The correspondence check compares every printed
+   length of upgma(), neighbor(), _tree2nwk() and of the tree objects with
+   fmt2 (tree-matrix value) EXACTLY (tolerance 0).  fmt2 is within 1/200 of the value
+   and no two-decimal number is nearer - the bound the checkers nt_ultrab and
+   nt_pathsumsb rely on for sums over k printed lengths. *)
+Theorem C09_printed_length_close :
+  forall q : Q, (fmt2 q - q <= 1 # 200)%Q /\ (q - fmt2 q <= 1 # 200)%Q.
+Proof. exact fmt2_close. Qed.
+Print Assumptions C09_printed_length_close.
+
+Theorem C09_printed_length_nearest :
+  forall (q : Q) (z : Z), (Qabs (fmt2 q - q) <= Qabs ((z # 100) - q))%Q.
+Proof. exact fmt2_nearest. Qed.
+Print Assumptions C09_printed_length_nearest.
+
+Theorem C09_printed_length_exact :
+  forall z : Z, (fmt2 (z # 100) == z # 100)%Q.
+Proof. exact fmt2_exact. Qed.
+Print Assumptions C09_printed_length_exact.
+
+(* the printed tree has the leaves of the tree the tree matrix defines *)
+Theorem C09_printed_tree_leaves :
+  forall (n : nat) (rows : list row), 1 <= n -> valid_rows n rows ->
+    exists t, nwk_printed n rows = Some t /\ Permutation (leaves t) (seq 0 n).
+Proof.
+  exact (fun n rows Hn Hv =>
+    match nwk_valid_rows n rows Hn Hv with
+    | ex_intro _ t (conj Ht Hp) =>
+        ex_intro _ (tree_fmt2 t)
+          (conj (nwk_printed_some n rows t Ht)
+                (eq_ind_r (fun l => Permutation l (seq 0 n)) Hp (leaves_fmt2 t)))
+    end).
+Qed.
+Print Assumptions C09_printed_tree_leaves.
+
+(* ties go to the even neighbour: 0.125 -> 0.12, 0.375 -> 0.38, -0.125 -> -0.12; and the
+   double nearest to 3.0 from above prints as 3.00 *)
+Example C09_printed_length_instances :
+  fmt2 (1 # 8) = 12 # 100 /\ fmt2 (3 # 8) = 38 # 100 /\ fmt2 (-(1 # 8)) = -12 # 100 /\
+  fmt2 (54043195528445957 # 18014398509481984) = 300 # 100.
+Proof. repeat split; vm_compute; reflexivity. Qed.
